@@ -22,7 +22,7 @@ import itertools
 import math
 from fractions import Fraction
 
-from ..core import LEAN, REPO, Prop, Violation, import_repo, show_bool, show_rat, write_if_changed
+from ..core import LEAN, REPO, Prop, Violation, hexs, import_repo, show_bool, show_rat, unhexs, write_if_changed
 from ..extract import quorum_consts
 
 STRATS = ["majority", "supermajority", "unanimous", "weighted", "confidence", "bayesian", "threshold"]
@@ -58,7 +58,13 @@ def parse_voter(tok):
         raise ValueError(k)
     if c not in ("none", "bad"):
         Fraction(c)
-    return (k, Fraction(w), Fraction(r), c)
+    return (k, None if w == "_" else Fraction(w), None if r == "_" else Fraction(r), c)
+
+
+def show_w(x):
+    """a weight / reliability as the model prints it: exact for dyadic floats; a float quotient such as 1/3 (from
+    correct_votes / votes_cast) is mapped back to the small fraction it approximates"""
+    return show_rat(Fraction(x).limit_denominator(10 ** 4))
 
 
 def parse_ballot(line):
@@ -198,28 +204,29 @@ class Spec:
 
 
 class Stub:
-    """stub voter agent (the BioAgent interface used by run_vote: `.name`, `.express(signal)`)"""
+    """stub voter agent (the BioAgent interface used by run_vote: `.name`, `.express(signal)`).  Behaviour is a queue
+    of (kind, conf, position) entries, one per colony slot that holds this object (the same agent object may be
+    registered twice): every `express` call consumes the next entry."""
 
     def __init__(self, name):
         self.name = name
-        self.k = "P"
-        self.c = "none"
-        self.i = 0
+        self.script = []
         self.calls = 0
 
     def express(self, signal):
         from operon_ai.core.types import ActionProtein
         self.calls += 1
-        if self.k == "X":
+        k, c, i = self.script.pop(0) if self.script else ("P", "none", 0)
+        if k == "X":
             raise RuntimeError("voter failed")
-        action = ACTION.get(self.k) or OTHER_ACTIONS[self.i % len(OTHER_ACTIONS)]
-        if self.c == "none":
-            payload = [None, "Action is safe.", {}, {"note": 1}, 0.25][self.i % 5]
-        elif self.c == "bad":
-            payload = {"confidence": ["high", None, "", [1]][self.i % 4]}
+        action = ACTION.get(k) or OTHER_ACTIONS[i % len(OTHER_ACTIONS)]
+        if c == "none":
+            payload = [None, "Action is safe.", {}, {"note": 1}, 0.25][i % 5]
+        elif c == "bad":
+            payload = {"confidence": ["high", None, "", [1]][i % 4]}
         else:
-            f = float(Fraction(self.c))
-            payload = {"confidence": [f, str(f)][(self.i // 3) % 2]}
+            f = float(Fraction(c))
+            payload = {"confidence": [f, str(f)][(i // 3) % 2]}
         return ActionProtein(action, payload, 1.0)
 
 
@@ -231,7 +238,7 @@ class C06(Prop):
     thorough_budget = 50000
     extractors = ["E5-quorum"]
     all_branches = (["gate"] + [f"{s}:{o}" for s in STRATS for o in ("permit", "block")] + ["threshold:raise"]
-                    + ["real:gate"] + [f"real:{s}:{o}" for s in STRATS for o in ("permit", "block")])
+                    + ["real:gate"] + [f"real:{s}:{o}" for s in STRATS for o in ("permit", "block")] + ["skip"])
     _assumptions = [
         "voter agents return or raise; they do not call back into the quorum object",
         "weights, reliabilities and confidences of the correspondence are dyadic rationals; ballots whose exact "
@@ -266,7 +273,7 @@ class C06(Prop):
     # --- case construction -----------------------------------------------------------------------------------
     @staticmethod
     def vote_line(ballot):
-        return " ".join(["vote"] + [f"{k}:{w}:{r}:{c}" for (k, w, r, c) in ballot])
+        return " ".join(["vote"] + [f"{k}:{'_' if w is None else w}:{'_' if r is None else r}:{c}" for (k, w, r, c) in ballot])
 
     def _states(self, lines):
         """configuration in force at every line: (strategy, custom, minVoters) or None"""
@@ -289,8 +296,10 @@ class C06(Prop):
         for l, st in zip(lines, self._states(lines)):
             if l.startswith("vote"):
                 ballot = parse_ballot(l)
-                if ballot is not None and Spec(st[0], st[1], st[2], ballot).float_risky():
-                    return True
+                if ballot is not None:
+                    ballot = [(k, Fraction(1) if w is None else w, Fraction(1) if r is None else r, c) for (k, w, r, c) in ballot]
+                    if Spec(st[0], st[1], st[2], ballot).float_risky():
+                        return True
         return False
 
     def _keep(self, case):
@@ -316,6 +325,12 @@ class C06(Prop):
     def generate(self, rng, tier, n):
         produced = 0
         while produced < n:
+            if rng.random() < 0.25:
+                case = self._history_case(rng)
+                if self._keep(case):
+                    produced += 1
+                    yield case
+                continue
             strat = rng.choice(STRATS + ["emergency", "bayesian", "threshold", "weighted", "confidence"])
             if strat == "emergency":
                 lines = [f"cfg emergency {rng.choice(['none', 'none', '3/10', '1/2', '1/4', '1', '2', '0'])} 1"]
@@ -347,6 +362,64 @@ class C06(Prop):
             if self._keep(case):
                 produced += 1
                 yield case
+
+    NAMES = ["Replica", "Replica", "Bacterium_0", "Bacterium_1", "", "\u00dcn\u00ef-\u8282\u70b9", "Added_1", "a b", "x"]
+
+    def _history_case(self, rng):
+        """legal-but-unusual colonies: duplicate / built-in / empty / non-ASCII names, the same agent object twice,
+        members added and removed between votes, weight and reliability changes between votes, strategy changes.
+        Bayesian is left out (its float-boundary filter needs the weights, which here live in the object)."""
+        strats = [x for x in STRATS if x != "bayesian"]
+        strat = rng.choice(strats)
+        lines = [f"cfg {strat} {self._rand_custom(rng, strat)} {rng.choice([1, 1, 1, 2, 0, 3])}"]
+        names = []                                       # generator-side guess of the colony (first-match removal)
+        if rng.random() < 0.7:
+            k0 = rng.choice([0, 1, 1, 2, 3])
+            lines.append(f"colony {k0}")
+            names = [f"Bacterium_{i}" for i in range(k0)]
+        votes = 0
+        for _ in range(rng.choice([3, 4, 5, 6, 8, 10])):
+            x = rng.random()
+            if x < 0.22:
+                nm = rng.choice(self.NAMES + names[:2])
+                lines.append(f"add {hexs(nm)} {rng.choice(W)}")
+                names.append(nm)
+            elif x < 0.27 and names:
+                i = rng.randrange(len(names))
+                lines.append(f"addsame {i} {rng.choice(W)}")
+                names.append(names[i])
+            elif x < 0.35:
+                nm = rng.choice(names + ["nobody"]) if names else "nobody"
+                lines.append(f"remove {hexs(nm)}")
+                if nm in names:
+                    names.remove(nm)
+            elif x < 0.43:
+                nm = rng.choice(names + ["nobody"]) if names else "nobody"
+                lines.append(f"setw {hexs(nm)} {rng.choice(W)}")
+            elif x < 0.5:
+                s2 = rng.choice(strats)
+                lines.append(f"setstrat {s2} {self._rand_custom(rng, s2)}")
+            elif x < 0.58 and votes:
+                lines.append(f"relall {rng.choice(['permit', 'permit', 'block', 'abstain', 'defer'])}")
+            elif x < 0.63:
+                nm = rng.choice(names + ["nobody"]) if names else "nobody"
+                lines.append(f"relupd {hexs(nm)} {rng.choice([0, 1])}")
+            else:
+                k = len(names) if rng.random() < 0.85 else rng.choice([0, 1, 2, 3, 4])
+                bias = rng.choice([["P", "B"], ["P", "P", "B", "U", "X"], ["P", "E", "B", "D", "U", "X"], ["P"], ["B", "P", "P"]])
+                ballot = []
+                for _i in range(k):
+                    kk = rng.choice(bias)
+                    c = rng.choice(CF) if rng.random() < 0.6 else "none"
+                    w = None if rng.random() < 0.8 else Fraction(rng.choice(W))
+                    r = None if rng.random() < 0.9 else Fraction(rng.choice(REL))
+                    ballot.append((kk, w, r, c))
+                lines.append(self.vote_line(ballot))
+                votes += 1
+                names = (names + [f"Added_{i}" for i in range(len(names), k)])[:max(k, 0)] if k != len(names) else names
+                if votes in (1, 2, 4) and rng.random() < 0.5:
+                    lines.append(f"relall {rng.choice(['permit', 'block', 'abstain'])}")
+        return {"lines": lines, "note": "history"}
 
     def exhaustive(self, tier):
         """every ballot of <= k voters over a small voter alphabet x every strategy x representative thresholds"""
@@ -406,8 +479,19 @@ class C06(Prop):
                             lines = [c]
             if len(lines) > 1:
                 count_cases.append({"lines": lines, "note": "exhaustive counts"})
+        # three-member colonies [Bacterium_0, X, Y] for every pattern of equal names x every ballot over P B U X
+        dup_cases = []
+        for (x, y) in [("Replica", "Replica"), ("Bacterium_0", "Replica"), ("Bacterium_0", "Bacterium_0"),
+                       ("Replica", "Other"), ("", ""), ("\u8282\u70b9", "\u8282\u70b9")]:
+            for c in ["cfg unanimous none 1", "cfg majority none 1", "cfg threshold none 1", "cfg weighted none 1"]:
+                lines = [c, "colony 1", f"add {hexs(x)} 1", f"add {hexs(y)} 2"]
+                for ks in itertools.product("PBUX", repeat=3):
+                    lines.append(self.vote_line([(k, None, None, "none") for k in ks]))
+                dup_cases.append({"lines": lines, "note": "exhaustive duplicate names"})
         return [{"name": f"all multisets of <= {kmax} voters over a {len(alpha)}-voter alphabet x {len(cfgs)} configurations",
                  "cases": kept},
+                {"name": "three-member colonies with every pattern of equal agent names x all ballots over P B U X x 4 strategies",
+                 "cases": dup_cases},
                 {"name": "all (permit, block, idle) count profiles of <= 9 voters x 8 counting configurations",
                  "cases": count_cases}]
 
@@ -427,30 +511,47 @@ class C06(Prop):
         return q
 
     def _resize(self, q, k):
-        i = 0
+        """grow / shrink the colony to k members through the public API"""
         while len(q.colony) > k:
-            q.remove_agent(q.colony[-1].agent.name)
+            q.remove_agent(q.colony[-1].agent.name)      # pops the FIRST member of that name
         while len(q.colony) < k:
-            i += 1
-            q.add_agent(f"Added_{len(q.colony)}_{i}", weight=1.0)
+            q.add_agent(f"Added_{len(q.colony)}", weight=1.0)
 
     def _install(self, q, ballot):
-        for i, (prof, (k, w, r, c)) in enumerate(zip(q.colony, ballot)):
+        """script the stubs for one vote; explicit weights / reliabilities are assigned to the profile (public
+        dataclass fields), `None` keeps what the object has.  Returns the electorate as the object now holds it."""
+        for prof in q.colony:
             if not isinstance(prof.agent, Stub):
                 prof.agent = Stub(prof.agent.name)
-            prof.agent.k, prof.agent.c, prof.agent.i = k, c, i
-            q.set_agent_weight(prof.agent.name, float(w))
-            prof.reliability_score = float(r)
+            prof.agent.script = []
+        resolved = []
+        for i, (prof, (k, w, r, c)) in enumerate(zip(q.colony, ballot)):
+            prof.agent.script.append((k, c, i))
+            if w is not None:
+                prof.weight = float(w)
+            if r is not None:
+                prof.reliability_score = float(r)
+            resolved.append((k, Fraction(prof.weight), Fraction(prof.reliability_score), c))
+        return resolved
 
-    def _observe(self, q, n, prompt="proposal"):
+    @staticmethod
+    def _colony_obs(q):
+        return "[" + ",".join(f"{hexs(p.agent.name)}:{show_w(p.weight)}:{show_w(p.reliability_score)}:{p.votes_cast}:"
+                              f"{p.correct_votes}" for p in q.colony) + "]"
+
+    def _observe(self, q, n, prompt="proposal", skip_nondyadic=False):
+        nondyadic = any(Fraction(p.reliability_score).denominator > 2 ** 20 for p in q.colony)
         try:
             with contextlib.redirect_stdout(io.StringIO()):
                 r = q.run_vote(prompt)
         except Exception as e:
             return f"raise:{type(e).__name__}", None
+        V = self.m.VotingStrategy
+        if skip_nondyadic and nondyadic and r.strategy in (V.WEIGHTED, V.CONFIDENCE, V.BAYESIAN):
+            return "skip:nondyadic", r                  # float sums of non-dyadic weights: not compared
         vt = lambda v: v.vote_type.value
         try:
-            votes = ",".join(f"{vt(v)}:{show_rat(v.weight)}:{show_rat(v.confidence)}" for v in r.votes)
+            votes = ",".join(f"{vt(v)}:{show_w(v.weight)}:{show_rat(v.confidence)}:{hexs(v.agent_id)}" for v in r.votes)
         except (ValueError, OverflowError):
             votes = "nan"
         gated = r.decision == self.m.VoteType.ABSTAIN
@@ -466,9 +567,18 @@ class C06(Prop):
 
     def run_impl(self, case):
         obs = []
+        ballots = {}                                    # line index -> the electorate the real object held at that vote
         states = self._states(case["lines"])
         q = None
-        pending = ("majority", None, 1, False)          # configuration to construct with at the first vote
+        pending = ("majority", None, 1, False)          # configuration to construct with
+        VT = self.m.VoteType
+
+        def ensure(n=0):
+            nonlocal q
+            if q is None:
+                q = self._make(pending[0], pending[1], pending[2], n, pending[3])
+            return q
+
         for li, line in enumerate(case["lines"]):
             t = line.split()
             try:
@@ -483,26 +593,56 @@ class C06(Prop):
                     pending = (("threshold", cu, 1, True) if t[1] == "emergency" else (t[1], cu, int(t[3]), False))
                     q = None
                     obs.append("ok")
+                elif t[0] == "colony" and len(t) == 2:
+                    if q is not None:
+                        obs.append("bad-op")
+                    else:
+                        ensure(int(t[1]))
+                        obs.append("ok")
                 elif t[0] == "setstrat" and len(t) == 3 and t[1] in STRATS:
                     cu = None if t[2] == "none" else float(Fraction(t[2]))
-                    if q is None:
-                        q = self._make(pending[0], pending[1], pending[2], 0, pending[3])
                     with contextlib.redirect_stdout(io.StringIO()):
-                        q.set_strategy(self.m.VotingStrategy(t[1]), cu)
+                        ensure().set_strategy(self.m.VotingStrategy(t[1]), cu)
                     obs.append("ok")
+                elif t[0] == "add" and len(t) == 3:
+                    name, w = unhexs(t[1]), float(Fraction(t[2]))
+                    with contextlib.redirect_stdout(io.StringIO()):
+                        ensure().add_agent(name, weight=w)
+                    obs.append(self._colony_obs(q))
+                elif t[0] == "addsame" and len(t) == 3:
+                    i, w = int(t[1]), float(Fraction(t[2]))
+                    if q is None or not (0 <= i < len(q.colony)):
+                        obs.append("bad-op")
+                    else:                                # the same agent object registered a second time
+                        if not isinstance(q.colony[i].agent, Stub):
+                            q.colony[i].agent = Stub(q.colony[i].agent.name)
+                        q.colony.append(self.m.AgentProfile(agent=q.colony[i].agent, weight=w))
+                        obs.append(self._colony_obs(q))
+                elif t[0] == "remove" and len(t) == 2:
+                    with contextlib.redirect_stdout(io.StringIO()):
+                        ok = ensure().remove_agent(unhexs(t[1]))
+                    obs.append(show_bool(ok) + " " + self._colony_obs(q))
+                elif t[0] == "setw" and len(t) == 3:
+                    ok = ensure().set_agent_weight(unhexs(t[1]), float(Fraction(t[2])))
+                    obs.append(show_bool(ok) + " " + self._colony_obs(q))
+                elif t[0] == "relupd" and len(t) == 3:
+                    ensure().update_reliability(unhexs(t[1]), t[2] in ("1", "true", "True"))
+                    obs.append(self._colony_obs(q))
+                elif t[0] == "relall" and len(t) == 2 and t[1] in ("permit", "block", "abstain", "defer"):
+                    ensure().update_all_reliability(VT(t[1]))
+                    obs.append(self._colony_obs(q))
                 elif t[0] == "vote":
                     ballot = [parse_voter(x) for x in t[1:]]
-                    if q is None:
-                        q = self._make(pending[0], pending[1], pending[2], len(ballot), pending[3])
+                    ensure(len(ballot))
                     with contextlib.redirect_stdout(io.StringIO()):
                         self._resize(q, len(ballot))
-                    self._install(q, ballot)
-                    obs.append(self._observe(q, len(ballot))[0])
+                    ballots[li] = self._install(q, ballot)
+                    obs.append(self._observe(q, len(ballot), skip_nondyadic=True)[0])
                 else:
                     obs.append("bad-op")
             except (ValueError, ZeroDivisionError, KeyError):
                 obs.append("bad-op")
-        return obs, None
+        return obs, {"ballots": ballots}
 
     # --- oracle: the property text on what the real code did --------------------------------------------------
     def _fresh(self, st, n, budget=1000):
@@ -536,8 +676,12 @@ class C06(Prop):
                 continue
             if t[0] != "vote" or o == "bad-op":
                 continue
-            ballot = parse_ballot(line)
+            ballot = (extra or {}).get("ballots", {}).get(idx)      # the electorate the real object held (resolves `_`)
             if ballot is None:
+                ballot = parse_ballot(line)
+                if ballot is None or any(w is None or r is None for (_, w, r, _) in ballot):
+                    continue
+            if o.startswith("skip:"):
                 continue
             sp = Spec(st[0], st[1], st[2], ballot)
             if o.startswith("raise:"):
@@ -552,8 +696,8 @@ class C06(Prop):
             want = (len(sp.P), len(sp.B), len(sp.A), sp.n)
             if (p, b, a, total) != want:
                 out.append(Violation("counts_equal_ballots", f"permit/block/abstain/total={want}", o, idx))
-            want_votes = [f"{k}:{show_rat(w)}:{show_rat(c)}" for (k, c, w) in sp.votes]
-            if got_votes != want_votes:
+            want_votes = [f"{k}:{show_w(w)}:{show_rat(c)}" for (k, c, w) in sp.votes]
+            if [x.rsplit(":", 1)[0] for x in got_votes] != want_votes:
                 out.append(Violation("votes_are_the_ballots_cast", ",".join(want_votes), f[7], idx))
             if (decision == "permit") != reached:
                 out.append(Violation("permit_iff_reached", "decision PERMIT exactly when reached", o, idx))
@@ -604,7 +748,7 @@ class C06(Prop):
         kinds = {"permit": "P", "block": "B", "abstain": "U", "defer": "D"}
         ballot = []
         for x in [x for x in f[7][1:-1].split(",") if x]:
-            k, w, c = x.split(":")
+            k, w, c, _name = x.split(":")
             ballot.append((kinds[k], Fraction(w), Fraction(1), c))
         sp = Spec(st[0], st[1], st[2], ballot)
         n = int(t[3])
